@@ -115,13 +115,18 @@ func errStr(e error) string {
 
 // EncryptDoc runs the real Encrypt and drains the document.
 func (p Pipe) EncryptDoc() (doc []byte, res string) {
+	return p.EncryptFrom(p.reader(p.Message()))
+}
+
+// EncryptFrom is EncryptDoc with the plaintext delivered by the given reader.
+func (p Pipe) EncryptFrom(src io.Reader) (doc []byte, res string) {
 	opts := enc.EncryptOptions{Algorithm: enc.KeyAlgorithm(p.Alg), KeyName: p.KeyName,
 		WrapKeyFn: func(k []byte, alg, kn string, nonce []byte) ([]byte, []byte, error) { return p.wrap(k), nil, nil }}
 	if p.Cipher != "" {
 		c := enc.Cipher(p.Cipher)
 		opts.Cipher = &c
 	}
-	r, err := enc.Encrypt(p.reader(p.Message()), opts)
+	r, err := enc.Encrypt(src, opts)
 	if err != nil {
 		return nil, "enc=" + errStr(err)
 	}
@@ -135,7 +140,12 @@ func (p Pipe) EncryptDoc() (doc []byte, res string) {
 // DecryptDoc runs the real Decrypt on doc and drains the plaintext. The result string is a
 // deterministic function of (p, doc) when nothing interferes.
 func (p Pipe) DecryptDoc(doc []byte) string {
-	r, err := enc.Decrypt(p.reader(doc), enc.DecryptOptions{
+	return p.DecryptFrom(p.reader(doc))
+}
+
+// DecryptFrom is DecryptDoc with the document delivered by the given reader.
+func (p Pipe) DecryptFrom(src io.Reader) string {
+	r, err := enc.Decrypt(src, enc.DecryptOptions{
 		UnwrapKeyFn: func(w []byte, alg, kn string, nonce, tag []byte) ([]byte, error) {
 			if p.SlowUs > 0 {
 				time.Sleep(time.Duration(p.SlowUs) * time.Microsecond)
